@@ -80,6 +80,8 @@ type Val struct {
 	M  []Entry `json:"m,omitempty"`
 	P  *Val    `json:"p,omitempty"`
 	Fn string  `json:"fn,omitempty"` // function value: name of a harness function
+
+	idx map[string]int // key index for large maps (built lazily, never serialised)
 }
 
 func VNum(x float64) *Val    { return &Val{T: Num, N: F64(x)} }
@@ -241,8 +243,24 @@ func KeyOf(k *Val) string {
 	return "?" + string(k.T.K)
 }
 
+func (v *Val) index() map[string]int {
+	if v.idx == nil || len(v.idx) != len(v.M) {
+		v.idx = make(map[string]int, len(v.M))
+		for i, e := range v.M {
+			v.idx[KeyOf(e.K)] = i
+		}
+	}
+	return v.idx
+}
+
 func (v *Val) MapGetExact(k *Val) *Val {
 	ks := KeyOf(k)
+	if len(v.M) > 16 {
+		if i, ok := v.index()[ks]; ok {
+			return v.M[i].V
+		}
+		return nil
+	}
 	for _, e := range v.M {
 		if KeyOf(e.K) == ks {
 			return e.V
@@ -258,6 +276,16 @@ func (v *Val) MapGet(k *Val) *Val { return v.MapGetExact(k) }
 // entry keeps its place).
 func (v *Val) MapPut(k, x *Val) {
 	ks := KeyOf(k)
+	if len(v.M) > 16 {
+		ix := v.index()
+		if i, ok := ix[ks]; ok {
+			v.M[i].V = x
+			return
+		}
+		v.M = append(v.M, Entry{k, x})
+		ix[ks] = len(v.M) - 1
+		return
+	}
 	for i, e := range v.M {
 		if KeyOf(e.K) == ks {
 			v.M[i].V = x
